@@ -144,7 +144,35 @@ func ruleL9(p *Prog, r *Report) {
 			isCheck := func(want string) func(ssa.Instruction) bool {
 				return func(y ssa.Instruction) bool {
 					cc, ok := y.(ssa.CallInstruction)
-					return ok && calleeName(cc) == want && sameValue(callRecv(cc), child)
+					if !ok {
+						return false
+					}
+					if calleeName(cc) == want && callRecv(cc) != nil && sameValue(callRecv(cc), child) {
+						return true
+					}
+					// a helper of the same type that is given the child and evaluates the test (or splits) on every success path
+					if g := staticCallee(cc); g != nil && recvName(g) == recvName(top) && len(g.Params) > 1 && len(g.Blocks) > 0 {
+						for j := 1; j < len(g.Params) && j < len(cc.Common().Args); j++ {
+							if !sameValue(cc.Common().Args[j], child) {
+								continue
+							}
+							prm := g.Params[j]
+							inner := func(z ssa.Instruction) bool {
+								c2, ok := z.(ssa.CallInstruction)
+								if !ok {
+									return false
+								}
+								if calleeName(c2) == want && callRecv(c2) != nil && sameValue(callRecv(c2), prm) {
+									return true
+								}
+								return want == "IsUnderflow" && calleeName(c2) == "SplitChildSlab"
+							}
+							if successReturnAvoiding(g, nil, inner) == nil {
+								return true
+							}
+						}
+					}
+					return false
 				}
 			}
 			if grows {
@@ -314,7 +342,12 @@ func ruleL9(p *Prog, r *Report) {
 								_ = x
 								if _, isConst := v.(*ssa.Const); !isConst {
 									if ex, ok := v.(*ssa.Extract); ok && !isErrorType(ex.Type()) {
-										onlyLevel = false
+										// only results of the element update itself (an invoke of Set on the group's element
+										// list) make the decision depend on whether a key was added; a level / digest obtained
+										// from some helper does not
+										if uc, isCall := ex.Tuple.(*ssa.Call); isCall && uc.Call.IsInvoke() && uc.Call.Method.Name() == "Set" {
+											onlyLevel = false
+										}
 									}
 								}
 							}
